@@ -523,7 +523,6 @@ func (r *Run) sessionLevelQER(s *CPSession, id uint32) bool {
 	return !inApp
 }
 
-
 // imgSig builds a violation signature. For operations the generator flags as
 // triggers of a listed known finding ("after:<trigger>") the signature is the
 // table plus the trigger, so that one root cause has one signature per table;
@@ -534,7 +533,6 @@ func imgSig(table, kind, cause string) string {
 	}
 	return table + ":" + kind + ":" + cause
 }
-
 
 // causeFor: a discrepancy about a session that a known-finding trigger was
 // applied to earlier is attributed to that trigger, also when it only shows
